@@ -1,6 +1,7 @@
 """C10 — consolidation and table bookkeeping (structural clauses; DESIGN.md §5 C10)."""
 from .core import an, strip_generics as sg, success_edges, bool_edges, propagation
-from . import flow, paths
+from . import flow
+from . import rules_c05 as c05, paths
 
 EXPLANATION = (
     'Decides the consolidation clauses of C10: (R10a) in consolidate_shards_in_directory every deleted path comes from the shards_to_remove list, every entry of that '
@@ -40,11 +41,28 @@ def r10a(ctx):
     for rm in rms:
         arg = a.arg(rm, 0)
         vec = a.root_call(arg)
-        if not ctx.check(vec is not None and sg(vec[1]).endswith('Vec::new'), 'R10a', fn, 'remove_file.arg', a.loc(rm), 'the deleted path is an element of a local list (%s)' % flow.show(arg)[:60],
-                         'cannot establish where the deleted path comes from: %s' % flow.show(arg)[:80]):
+        if not (vec is not None and sg(vec[1]).endswith('Vec::new')):
+            # direct form: no intermediate list — the deletion loop walks the merged inputs itself.  Then the deletion
+            # itself must come after the successful write of this round, after the merged hash entered the finished
+            # set, and behind the not-contained guard for the same element.
+            lpo = c05.loop_of(a, w)
+            direct = arg[0] == 'field' and arg[2] == 'path' and lpo is not None
+            okd = direct and bool(wok) and c05.in_iteration_guarded(a, lpo, rm, wok)
+            ctx.check(okd, 'R10a', fn, 'remove_file.arg', a.loc(rm), 'the deleted path is the path of an input shard, deleted only after the merged shard was written successfully in this round (%s)' % flow.show(arg)[:60],
+                      'cannot establish where the deleted path comes from, or an input shard can be deleted before (or without) the merged shard having been written: %s' % flow.show(arg)[:80])
+            if okd:
+                te, fe = bool_edges(a, lambda e: e[0] == 'call' and sg(e[1]).endswith('HashSet::contains') and same_elem(a, e[2][1], arg))
+                ctx.check(bool(fe) and a.cfg.must_pass(rm, via_edges=fe), 'R10a', fn, 'contains-guard', a.loc(rm), 'the deletion is dominated by the not-contained edge of finished_shard_hashes.contains(its hash)',
+                          'a shard that is also a finished (returned) shard can be deleted')
+                ins = [i for i in a.calls('std::collections::hash::set::HashSet::insert') if a.rooted_at(a.arg(i, 1), w)]
+                ctx.check(bool(ins) and c05.in_iteration_guarded(a, lpo, rm, [e_ for i in ins for e_ in a.cfg.out_edges(i)]), 'R10a', fn, 'finished.insert', a.loc(ins[0]) if ins else '-',
+                          'the merged shard\'s hash enters finished_shard_hashes before its inputs are deleted')
+                okp, d = propagation(a, rm)
+                ctx.check(okp, 'R10a', fn, 'remove?', a.loc(rm), 'remove_file errors propagate: ' + d)
             continue
         vb = vec[3]
-        pushes = [p for p in a.calls('alloc::vec::Vec::push') if a.root_call(a.arg(p, 0)) is not None and a.root_call(a.arg(p, 0))[3] == vb]
+        pushes = [p for p in a.calls() if sg(a.term(p).get('fn', '')).split('::')[-1] in ('push', 'extend', 'extend_from_slice', 'append') and a.term(p)['args']
+                  and a.root_call(a.arg(p, 0)) is not None and a.root_call(a.arg(p, 0))[3] == vb]
         ctx.check(len(pushes) >= 1, 'R10a', fn, 'shards_to_remove.push', '-', '%d push site(s) fill the removal list' % len(pushes))
         for p in pushes:
             okp = bool(wok) and a.cfg.must_pass(p, via_edges=wok)
